@@ -35,7 +35,7 @@ InitPool == [pend |-> [a \in Accts |-> {}], que |-> [a \in Accts |-> {}], all |-
              pn |-> [a \in Accts |-> -1], sn |-> [a \in Accts |-> 0], sb |-> [a \in Accts |-> 4], gp |-> 1]
 
 TReset == /\ (IsEvent("reset") \/ IsEvent("abort"))
-          /\ s' = InitPool /\ work' = NoWork /\ last' = <<>> /\ nops' = 0
+          /\ s' = InitPool /\ work' = NoWork /\ last' = <<>> /\ nops' = 0 /\ goal' = FALSE /\ arr' = <<>>
           /\ dem' = [acc |-> {}, glob |-> FALSE, gap |-> {}] /\ hist' = <<>>
 
 TInit == /\ IsEvent("Init")
